@@ -106,7 +106,15 @@ func (g *G) StrExpr(d int, env *Env) Expr {
 	case 5:
 		return call("normalize-space", g.StrArg(d, env))
 	case 6:
-		return call("translate", g.StrArg(d, env), str(g.Pick("ab", "abc", "X", "", "aa", " ", "abX")), str(g.Pick("AB", "x", "", "XYZ", "A")))
+		from, to := str(g.Pick("ab", "abc", "X", "", "aa", " ", "abX", "aba", "10")), str(g.Pick("AB", "x", "", "XYZ", "A", "xy"))
+		if g.Chance(0.3) {
+			// node-set arguments in any position (string-value of the first node)
+			if g.Chance(0.5) {
+				return call("translate", g.StrArg(d, env), from, g.RelFlat(env.names()))
+			}
+			return call("translate", g.StrArg(d, env), g.RelFlat(env.names()), to)
+		}
+		return call("translate", g.StrArg(d, env), from, to)
 	case 7:
 		return call("lower-case", g.StrArg(d, env))
 	case 8:
